@@ -28,6 +28,7 @@ where C: FullDuplexMultiChannel<ItemType = u32> + Send + Sync + 'static,
     for (tid, prog) in case.progs.iter().enumerate() {
         let prog = prog.clone();
         handles.push(spawn_worker(tid, move || {
+            let mut last_created: Option<usize> = None;
             for op in prog {
                 match op.name.as_str() {
                     "send" => match chan.send(op.arg(0) as u32) {
@@ -35,8 +36,8 @@ where C: FullDuplexMultiChannel<ItemType = u32> + Send + Sync + 'static,
                         keen_retry::RetryResult::Transient { input, .. } => ret(tid, 11, input as i64, 0),
                         keen_retry::RetryResult::Fatal { .. }            => ret(tid, 99, 0, 0),
                     },
-                    "poll" | "drive" => {
-                        let i = op.arg(0) as usize;
+                    "poll" | "drive" | "pollc" => {
+                        let i = if op.name == "pollc" { match last_created { Some(i) => i, None => { verif::yield_point("yield", 2); ret(tid, 19, 0, 0); continue } } } else { op.arg(0) as usize };
                         let drive = op.name == "drive";
                         let stream = table[i].lock().unwrap().clone();
                         let Some(stream) = stream else { verif::yield_point("yield", 2); ret(tid, 19, 0, 0); continue };
@@ -68,6 +69,7 @@ where C: FullDuplexMultiChannel<ItemType = u32> + Send + Sync + 'static,
                         if free {
                             let (stream, id) = chan.create_stream_for_new_events();
                             *table[id as usize].lock().unwrap() = Some(Arc::new(Mutex::new(stream)));
+                            last_created = Some(id as usize);
                             ret(tid, 17, id as i64, 0);
                         } else { verif::yield_point("yield", 2); ret(tid, 19, 0, 0); }
                     },
@@ -83,6 +85,7 @@ where C: FullDuplexMultiChannel<ItemType = u32> + Send + Sync + 'static,
                         if free {
                             let (stream, id) = chan.create_stream_for_new_events();
                             *table[id as usize].lock().unwrap() = Some(Arc::new(Mutex::new(stream)));
+                            last_created = Some(id as usize);
                             verif::resume(me);
                             ret(tid, 17, id as i64, 0);
                         } else { verif::resume(me); ret(tid, 19, 0, 0); }
